@@ -17,14 +17,15 @@ Py, PXs = ("param", "y"), ("param", "Xs")
 SY = ("scalar", Py)
 
 
-def cmp_rule(rep, rule, w, got, ref, what):
-    v = MN.compare(got, ref)
-    if v == "equal":
-        rep.ok(rule, w, "%s equals %s" % (what, MN.show(ref)))
-    elif v == "different":
-        rep.bad(rule, w, "%s is %s but must be %s" % (what, MN.show(got), MN.show(ref)))
-    else:
-        rep.unk(rule, w, "%s has a different inverse structure: %s vs %s" % (what, MN.show(got), MN.show(ref)))
+def cmp_rule(rep, rule, w, got, ref, what, extra=None):
+    def make_point(rnd):
+        from .. import mnf_eval as ME
+        p = 5
+        vals = {C: ME.rand_spd(rnd, p), MU: ME.rand_vec(rnd, p)}
+        for t in (extra or ()):
+            vals[t] = ME.rand_vec(rnd, p)
+        return ME.Point(p, vals, {Py: 2, PXs: [4, 1]})
+    decide_formula(rep, rule, w, got, ref, what, make_point)
 
 
 def run(prog, rep, tier):
@@ -62,7 +63,7 @@ def run(prog, rep, tier):
         alt = add(rV(MU, SY), mul(rA(MU), rA(coefs_t)), -1)        # b.mu = mu.b for 1-D vectors
         if MN.key(got) == MN.key(alt):
             ref = alt
-        cmp_rule(rep, "FORMULA.intercept", fwhere(f, rets[0].node, construct="intercept"), got, ref, "intercept")
+        cmp_rule(rep, "FORMULA.intercept", fwhere(f, rets[0].node, construct="intercept"), got, ref, "intercept", [coefs_t])
     except Inconclusive as e:
         rep.unk("FORMULA.intercept", fwhere(f), "left the matrix fragment: %s" % e.why)
     # ---------------------------------------------------------------- mse
@@ -81,7 +82,7 @@ def run(prog, rep, tier):
         got = M2.nf(term)
         cyy = rB(C, SY, SY)
         ref = add(add(cyy, mul(mul(rA(b), rA(C)), rA(b))), rscale(mul(rB(C, SY, "ALL"), rA(b)), 2), -1)
-        cmp_rule(rep, "FORMULA.mse", fwhere(f2, construct="mse"), got, ref, "mse")
+        cmp_rule(rep, "FORMULA.mse", fwhere(f2, construct="mse"), got, ref, "mse", [b])
     except Inconclusive as e:
         rep.unk("FORMULA.mse", fwhere(f2), "left the matrix fragment: %s" % e.why)
     reads_mean = any(x == MU for x in walk(term)) or any(x == ("sub", calls[0].result, ("const", 1)) for x in walk(term))
